@@ -348,13 +348,20 @@ def acceptburst(case, res):
                     S.request(c, "info")
                 conns.append(c)
             S.request(own, "change", {"path": "b/s", "value": rnd + 1})
-            fault = rng.random() < 0.45
+            fault = rng.random() < 0.45 or bool(prm.get("alloc"))
             if fault:
                 # the set-up of ONE of these connections fails (a system call on the freshly accepted socket, its registration):
                 # that one is lost, the others - still waiting in the queue at that moment - are served as usual
                 import errno as E
-                call = rng.choice(["fcntl", "setsockopt", "getsockname", "epoll_ctl", "setsockopt"])
-                S.sim.inject(call, rng.randrange(1, 2 * k), rng.choice([E.ENOBUFS, E.ENOMEM, E.EINVAL]))
+                was_alloc = bool(prm.get("alloc")) or rng.random() < 0.3
+                if was_alloc:
+                    # ... or an allocation of its set-up (peer, socket object, routing table) fails
+                    S.sim.failalloc(rng.randrange(1, 6 * k), 1, rng.randrange(2))
+                    S.alloc_faults = True
+                    S.sig("burst-alloc-fault", t)
+                else:
+                    call = rng.choice(["fcntl", "setsockopt", "getsockname", "epoll_ctl", "setsockopt"])
+                    S.sim.inject(call, rng.randrange(1, 2 * k), rng.choice([E.ENOBUFS, E.ENOMEM, E.EINVAL]))
                 S.inject_active = True
                 for c in conns:
                     c.healthy, c.may_close = False, True
@@ -364,16 +371,24 @@ def acceptburst(case, res):
             if fault:
                 for call in ("fcntl", "setsockopt", "getsockname", "epoll_ctl"):
                     S.sim.inject(call, 0, 0)
+                S.sim.failalloc(-1, 0)
+                S.alloc_faults = False
                 S.stats["burst_setup_faults"] += 1
                 lost = [c for c in conns if c.closed and not c.ended]
                 if len(lost) > 1:
                     S.v("conn/one-failed-set-up-cost-several-connections", "%d of %d (%s)" % (len(lost), k, t))
                     break
+                budget = 1 - len(lost) if was_alloc else 0      # (a failed allocation may as well have hit the answer to one request)
                 for c in conns:
                     if c.closed:
                         continue
                     c.healthy = True
                     if any(p.state == "sent" and p.key is not None for p in c.pending.values()) and c.accepted and not c.ended:
+                        if budget > 0:
+                            budget -= 1
+                            for p in c.pending.values():
+                                p.hold = True
+                            continue
                         S.v("rpc/request-not-answered", "on %s of a burst in which another connection's set-up failed" % c.name)
                         break
             for c in conns:
